@@ -960,3 +960,50 @@ def invented_declaration_census(fe, modname, const_name='RET',
     return [dict(name='%s/invented-declarations[carry-the-reserved-name-%s]' % (modname, const_name), function=modname,
                  lineno=0, kind='proof', status='proved' if not bad else 'failed', secs=0, backend='syntactic',
                  reason='; '.join(bad[:3]))]
+
+
+def phase_separation(fe, qual, var):
+    """phases[<function>:<var>]: the set `var` is FILLED in one phase of the function and CONSULTED in a later one -- every
+    statement that adds to it (or rebinds it, apart from the initial empty binding) lies in a top-level statement of the
+    function that comes before every top-level statement that reads it.  A membership test against a set that is still being
+    filled sees only the elements added so far (C03: `removed_decls` of is_combination_feasible -- a type argument may be
+    omitted only if the declaration that would determine it is not omitted as well, whatever the order of the combination).
+    Syntactic, from the real AST."""
+    modname, fname = qual.rsplit('.', 1)
+    fn = fe.module(modname).functions[fname]
+    writes, reads, binds = [], [], 0
+    for idx, stmt in enumerate(fn.body):
+        for n in ast.walk(stmt):
+            if isinstance(n, ast.Assign) and any(isinstance(t, ast.Name) and t.id == var for t in n.targets):
+                empty = (isinstance(n.value, ast.Call) and isinstance(n.value.func, ast.Name) and n.value.func.id == 'set'
+                         and not n.value.args) or (isinstance(n.value, (ast.List, ast.Set, ast.Dict))
+                                                   and not getattr(n.value, 'elts', getattr(n.value, 'keys', [])))
+                if empty and stmt is n:
+                    binds += 1
+                else:
+                    writes.append((idx, n.lineno, 'rebinds'))
+            elif isinstance(n, (ast.AugAssign,)) and isinstance(n.target, ast.Name) and n.target.id == var:
+                writes.append((idx, n.lineno, 'augmented assignment'))
+            elif isinstance(n, ast.Call) and isinstance(n.func, ast.Attribute) and isinstance(n.func.value, ast.Name) \
+                    and n.func.value.id == var:
+                if n.func.attr in MUTATORS:
+                    writes.append((idx, n.lineno, '.' + n.func.attr))
+                else:
+                    reads.append((idx, n.lineno))
+            elif isinstance(n, ast.Name) and n.id == var and isinstance(n.ctx, ast.Load):
+                reads.append((idx, n.lineno))
+    # receivers of mutator calls were also counted as plain loads: drop those
+    wlines = {ln for _, ln, _ in writes}
+    reads = [(i, ln) for i, ln in reads if ln not in wlines]
+    bad = []
+    if binds != 1:
+        bad.append('%s is bound to an empty collection %d times at the top level (expected once)' % (var, binds))
+    if writes and reads and max(i for i, _, _ in writes) >= min(i for i, _ in reads):
+        w = max(writes)
+        r = min(reads)
+        bad.append('line %d %s %s while line %d already reads it (same or earlier phase)' % (w[1], w[2], var, r[1]))
+    if not writes or not reads:
+        bad.append('%s is %s' % (var, 'never filled' if not writes else 'never consulted'))
+    return [dict(name='%s/phases[%s-is-complete-before-it-is-consulted]' % (qual, var), function=qual, lineno=fn.lineno,
+                 kind='proof', status='proved' if not bad else 'failed', secs=0, backend='syntactic',
+                 reason='; '.join(bad[:3]))]
